@@ -67,7 +67,15 @@ func negTv(t tv) tv {
 var c05Ops = []string{"=", "!=", "<", "<=", ">", ">="}
 
 func c05Pool() []lib.Val {
-	return append(append(append([]lib.Val{}, lib.SystemPool()...), lib.ElementPool()...), lib.OrderingExtras()...)
+	p := append(append(append([]lib.Val{}, lib.SystemPool()...), lib.ElementPool()...), lib.OrderingExtras()...)
+	// date and partial dateTime elements read in zones east and west of UTC: the calendar date they print is the date they are
+	// (a subset of the C15 elements: one zone on either side, every precision)
+	for _, v := range c15ExtraElements() {
+		if strings.Contains(v.ID, "+14:00") || strings.Contains(v.ID, "-05:00") || strings.Contains(v.ID, ".us") {
+			p = append(p, v)
+		}
+	}
+	return p
 }
 
 // c05Items is the collection item alphabet: two collections can differ at every single position.
